@@ -64,6 +64,11 @@ def fp_circuit(qc):
         "num_qubits": qc.num_qubits,
         "gates": fp_gates(qc.gates),
         "qubit_map": [[k, v] for k, v in qc.qubit_map.items()],
+        # the bookkeeping that decides what a later uncompute() / get_free_ancilla() on this circuit does
+        "internal": {
+            "gates_computed": fp_gates(getattr(qc, "gates_computed", [])),
+            **{f: sorted(getattr(qc, f)) for f in ("ancilla_lst", "free_ancilla_lst", "marked_ancillas") if hasattr(qc, f)},
+        },
     }
 
 
